@@ -143,19 +143,19 @@ Inductive cval :=
 
 Inductive meth := MNestedKeys | MValuesList | MItemsList | MSortedKeys | MFlattenKeys | MUnflattenKeys | MDetach
                 | MDtype | MDepth | MBytes | MParamCount | MAddBatchDim
-                | MLazyNames | MKeyList | MHasExclusive | MLazyGetStr.
+                | MKeyList | MHasExclusive | MLazyGetStr.
 
 Definition meth_name (m : meth) : string :=
   match m with
   | MNestedKeys => "_nested_keys" | MValuesList => "_values_list" | MItemsList => "_items_list" | MSortedKeys => "sorted_keys"
   | MFlattenKeys => "flatten_keys" | MUnflattenKeys => "unflatten_keys" | MDetach => "detach" | MDtype => "_dtype"
   | MDepth => "_depth" | MBytes => "bytes" | MParamCount => "param_count" | MAddBatchDim => "_add_batch_dim"
-  | MLazyNames => "names" | MKeyList => "_key_list" | MHasExclusive => "_has_exclusive_keys" | MLazyGetStr => "_get_str"
+  | MKeyList => "_key_list" | MHasExclusive => "_has_exclusive_keys" | MLazyGetStr => "_get_str"
   end.
 Definition meth_eqb (a b : meth) : bool := String.eqb (meth_name a) (meth_name b).
 Definition all_meths : list meth :=
   [MNestedKeys; MValuesList; MItemsList; MSortedKeys; MFlattenKeys; MUnflattenKeys; MDetach; MDtype; MDepth; MBytes; MParamCount;
-   MAddBatchDim; MLazyNames; MKeyList; MHasExclusive; MLazyGetStr].
+   MAddBatchDim; MKeyList; MHasExclusive; MLazyGetStr].
 
 Record centry := { e_meth : meth; e_key : ckey; e_val : cval;
                    e_args : list arg; e_kwargs : list (string * arg) }.   (* ghost: the call that created the entry *)
@@ -182,12 +182,18 @@ Definition children_nodes (s : state) (p : path) : list node := filter (fun n =>
 (* _lazy.py:3124 is_locked: the flag if it is set, otherwise "all members are locked (and there is a member)";
    members of a lazy stack are TensorDicts here (one level of derivation) *)
 Definition flag_locked (n : node) : bool := match n_flag n with Some b => b | None => false end.
+(* D64 repaired: utils.cache does not memoise for a lazy stack whose lock is only derived (_is_locked is None) *)
+Definition fixed_D64 : bool := true.
 Definition node_locked (s : state) (n : node) : bool :=
   match n_flag n with
   | Some b => b
   | None => let ms := children_nodes s (n_path n) in
             negb (match ms with [] => true | _ => false end) && forallb flag_locked ms
   end.
+
+(* the decorator memoises: locked, and (D64) not merely through its members *)
+Definition cache_active (s : state) (n : node) : bool :=
+  node_locked s n && (negb fixed_D64 || match n_flag n with Some _ => true | None => false end).
 
 (* ------------------------------------------------------------------------------------------------ binding of arguments *)
 Definition truthy (a : arg) : bool :=
@@ -411,13 +417,6 @@ Definition freshv (v : sview) (m : meth) (args : list arg) (kwargs : list (strin
                                               (filter (fun rl => leaf_ok mask_nontensor (snd rl)) (v_leaves v))))
     | MBytes => VNat (bytes_of (truthy (par env "count_duplicates")) (values_of v true true mask_default false))
     | MParamCount => VNat (count_of (truthy (par env "count_duplicates")) (values_of v true true mask_default false))
-    | MLazyNames =>
-        (* _lazy.py:462: the first member's names (the stack-dim name inserted); ValueError if a member's names differ *)
-        match members v with
-        | m0 :: ms => if forallb (fun m => names_eqb (m_names (i_meta (snd m))) (m_names (i_meta (snd m0)))) ms
-                      then VNames (m_names (i_meta (snd m0))) else VRaise
-        | [] => VRaise
-        end
     | MKeyList => VKeys (lazy_common_keys v)
     | MHasExclusive =>
         VBool (match members v with
@@ -499,7 +498,7 @@ Definition decorate (s : state) (p : path) (m : meth) (args : list arg) (kwargs 
   match find_node s p with
   | None => (s, None)
   | Some n =>
-      if negb (node_locked s n) then (s, Some (Bypass, v))
+      if negb (cache_active s n) then (s, Some (Bypass, v))
       else
         let k := make_cache_key args kwargs in
         match cache_lookup (n_cache n) m k with
@@ -554,7 +553,7 @@ Definition read (hooked : bool) (s : state) (p : path) (m : meth) (args : list a
   | None => (s, None)
   | Some n =>
       let env := match bind (fst (signature m)) (snd (signature m)) args kwargs with Some e => e | None => [] end in
-      let hit := node_locked s n && match cache_lookup (n_cache n) m (make_cache_key args kwargs) with Some _ => true | None => false end in
+      let hit := cache_active s n && match cache_lookup (n_cache n) m (make_cache_key args kwargs) with Some _ => true | None => false end in
       if hit && negb hooked
       then match decorate s p m args kwargs VRaise with          (* a hit never looks at the body value *)
            | (s', Some (a, v)) => (s', Some (a, v, None))
@@ -627,15 +626,21 @@ Definition unlock_ (s : state) (p : path) : state * outcome :=
   end.
 
 (* ------------------------------------------------------------------------------------------------ writes *)
-Record fixes := { fix_rebind : bool;      (* D19/S4/make_memmap*: erase the caches of the node and of its lock parents where ignore_lock=True rebinds *)
-                  fix_meta : bool;        (* names / batch_size setters erase the caches of the node, its ancestors' and the subtree's *)
-                  fix_memmap_lock : bool  (* memmap_ builds the lock graph (D7) and erases caches *) }.
-Definition repo : fixes := {| fix_rebind := false; fix_meta := false; fix_memmap_lock := false |}.
-Definition all_fixed : fixes := {| fix_rebind := true; fix_meta := true; fix_memmap_lock := true |}.
+Record fixes := { fix_rebind : bool;    (* D19/S4/D60: _set_str(ignore_lock=True) under lock erases the caches of the node and of its lock parents *)
+                  fix_meta : bool;      (* D63: the names setter, _erase_names and _change_batch_size do the same when the node is locked *)
+                  fix_memmap : bool     (* D61: _memmap_(inplace) on a locked node does the same, node by node *) }.
+(* /repo with the fix: commits of C06 applied *)
+Definition repo : fixes := {| fix_rebind := true; fix_meta := true; fix_memmap := true |}.
+(* /repo before them (the refutations of C06 were stated about this one) *)
+Definition unrepaired : fixes := {| fix_rebind := false; fix_meta := false; fix_memmap := false |}.
+Definition all_fixed : fixes := repo.
 
-(* erase the caches of every node on the way from the root to p and of the whole subtree of p *)
-Definition erase_around (s : state) (p : path) : state :=
-  upd_nodes s (fun n => if is_prefix (n_path n) p || is_prefix p (n_path n) then with_cache n [] else n).
+(* TensorDictBase._erase_cache_upwards, called by every node whose path satisfies [touched]: the node's own cache and the
+   caches of the nodes registered as its lock parents *)
+Definition erase_touched (s : state) (touched : path -> bool) : state :=
+  upd_nodes s (fun x => if touched (n_path x)
+                           || existsb (fun y => touched (n_path y) && path_mem (n_path x) (n_parents y)) (nodes s)
+                        then with_cache x [] else x).
 
 Definition set_leaf (s : state) (p : path) (l : leaf) : state :=
   {| nodes := nodes s;
@@ -687,10 +692,11 @@ Definition names_list (m : nmeta) : list string :=
   match m_names m with Some l => l | None => repeat "None" (List.length (m_bs m)) end.
 Definition norm_names (l : list string) : option (list string) :=
   if forallb (String.eqb "None") l then None else Some l.
+Definition names_value (names : option (list string)) : option (list string) :=
+  match names with Some l => norm_names l | None => None end.
 Definition set_names (s : state) (p : path) (names : option (list string)) : state :=
-  let v := match names with Some l => norm_names l | None => None end in
   upd_nodes s (fun x =>
-    match v with
+    match names_value names with
     | None => if path_eqb (n_path x) p || is_child p (n_path x)
               then with_meta x {| m_bs := m_bs (n_meta x); m_names := None; m_dev := m_dev (n_meta x) |} else x
     | Some l => if is_prefix p (n_path x)
@@ -699,6 +705,16 @@ Definition set_names (s : state) (p : path) (names : option (list string)) : sta
                                     m_dev := m_dev (n_meta x) |}
                 else x
     end).
+(* the nodes whose names setter / _erase_names runs *)
+Definition names_touched (p : path) (names : option (list string)) (x : path) : bool :=
+  match names_value names with
+  | None => path_eqb x p || is_child p x
+  | Some _ => is_prefix p x
+  end.
+
+(* `if self._is_locked:` of the node at path x *)
+Definition locked_at (s : state) (x : path) : bool :=
+  match find_node s x with Some n => flag_locked n | None => false end.
 
 Definition is_node_path (s : state) (p : path) : bool := match find_node s p with Some _ => true | None => false end.
 
@@ -709,10 +725,16 @@ Definition step (fx : fixes) (hooked : bool) (s : state) (o : op) : state * outc
   | ORead p m args kwargs => match read hooked s p m args kwargs with (s', Some _) => (s', Done) | (s', None) => (s', NoSuchTarget) end
   | OInplace p v =>
       match find_leaf s p with
-      | Some l => match l_kind l with
-                  | KNonTensorData => (s, RaisedOther)           (* an immutable non-tensor entry has no in-place copy *)
-                  | _ => ({| nodes := nodes s; leaves := leaves s; store := store_set (store s) (l_stor l) v |}, Done)
-                  end
+      | Some l =>
+          let s1 := {| nodes := nodes s; leaves := leaves s; store := store_set (store s) (l_stor l) v |} in
+          match l_kind l with
+          | KNonTensorData => (s, RaisedOther)           (* an immutable non-tensor entry has no in-place copy *)
+          | KTensor => (s1, Done)
+          | KNonTensorStack =>
+              (* td[idx] = <non-tensor> on an entry that is a stack already: modified in place; memoised tensordicts hold COPIES
+                 of non-tensor content, so (D19 repair) the owner erases upwards when it is locked *)
+              ((if fix_rebind fx && locked_at s (parent_of p) then erase_touched s1 (fun x => path_eqb x (parent_of p)) else s1), Done)
+          end
       | None => (s, NoSuchTarget)
       end
   | OSet p l =>
@@ -744,7 +766,9 @@ Definition step (fx : fixes) (hooked : bool) (s : state) (o : op) : state * outc
           | KNonTensorStack => (s, RaisedOther)     (* a NonTensorStack is a lazy stack with a lock of its own: not modelled *)
           | KNonTensorData =>
               if n_memmap n then (s, RaisedOther)                                     (* _SHARED_INPLACE_ERROR *)
-              else let s1 := set_leaf s p l in ((if fix_rebind fx then erase_around s1 (parent_of p) else s1), Done)
+              else if is_node_path s p then (s, RaisedOther)                          (* a name is an entry or a nested node, not both *)
+              else let s1 := set_leaf s p l in
+                   ((if fix_rebind fx && flag_locked n then erase_touched s1 (fun x => path_eqb x (parent_of p)) else s1), Done)
           end
       | _, _ => (s, NoSuchTarget)
       end
@@ -753,7 +777,8 @@ Definition step (fx : fixes) (hooked : bool) (s : state) (o : op) : state * outc
       | Some n, _ :: _ =>
           if negb (n_memmap n) then (s, RaisedOther)
           else if is_node_path s p || (match find_leaf s p with Some _ => true | None => false end) then (s, RaisedOther)
-          else let s1 := set_leaf s p l in ((if fix_rebind fx then erase_around s1 (parent_of p) else s1), Done)
+          else let s1 := set_leaf s p l in
+               ((if fix_rebind fx && flag_locked n then erase_touched s1 (fun x => path_eqb x (parent_of p)) else s1), Done)
       | _, _ => (s, NoSuchTarget)
       end
   | OMemmap p base =>
@@ -772,7 +797,8 @@ Definition step (fx : fixes) (hooked : bool) (s : state) (o : op) : state * outc
                                                     then [(base + l_stor (snd ql), store_get (store s) (l_stor (snd ql)))] else []) (leaves s)
                                 ++ store s |} in
           let s2 := upd_nodes s1 (fun n => if is_prefix p (n_path n) then with_meta n {| m_bs := m_bs (n_meta n); m_names := m_names (n_meta n); m_dev := 1 |} else n) in
-          ((if fix_memmap_lock fx then erase_around (propagate_lock s2 p) p else s2), Done)
+          (* each node of the subtree that was locked already erases upwards before its entries are replaced *)
+          ((if fix_memmap fx then erase_touched s2 (fun x => is_prefix p x && locked_at s x) else s2), Done)
       end
   | OSetNames p names =>
       match find_node s p with
@@ -783,7 +809,7 @@ Definition step (fx : fixes) (hooked : bool) (s : state) (o : op) : state * outc
           let s2 := match n_kind n with
                     | NLAZY => upd_nodes s1 (fun x => if path_eqb (n_path x) p then with_cache x [] else x)
                     | NTD => s1 end in
-          ((if fix_meta fx then erase_around s2 p else s2), Done)
+          ((if fix_meta fx then erase_touched s2 (fun x => names_touched p names x && locked_at s x) else s2), Done)
       end
   | OSetBatchSize p bs =>
       match find_node s p with
@@ -800,7 +826,12 @@ Definition step (fx : fixes) (hooked : bool) (s : state) (o : op) : state * outc
                         | None => s0
                         | Some l => set_names s0 p (Some (firstn (List.length bs) l))
                         end in
-              ((if fix_meta fx then erase_around s1 p else s1), Done)
+              let touched := fun x => path_eqb x p
+                                      || match m_names (n_meta n) with
+                                         | None => false
+                                         | Some l => names_touched p (Some (firstn (List.length bs) l)) x
+                                         end in
+              ((if fix_meta fx then erase_touched s1 (fun x => touched x && locked_at s x) else s1), Done)
           end
       end
   end.
